@@ -127,6 +127,7 @@ type FnResult struct {
 	Err     string // unsupported / spec error: function not verified
 	Paths   int
 	Obligs  []*Oblig
+	Vacuous []string // call-history names the contract mentions for which no call was recorded on any path
 }
 
 func (l *Loaded) newRunner() *Runner {
@@ -168,6 +169,20 @@ func (l *Loaded) verifyFunc(r *Runner, fn *ssa.Function, sp *FuncSpec) (res *FnR
 	r.work = nil
 	r.obligs = nil
 	r.histSigs = callSigsOf(fn)
+	r.recorded = map[string]bool{}
+	defer func() {
+		// vacuity diagnostic: the contract talks about calls of X (calls / lastret / calledwith / ...),
+		// but no call of X was recorded on any path -- such a clause says nothing (a misspelt callee, or
+		// a callee that is inlined because it has no contract of its own)
+		if res.Err != "" {
+			return
+		}
+		for _, name := range historyNames(sp) {
+			if !r.recorded[name] && !r.recorded[strings.TrimPrefix(name, "prev:")] {
+				res.Vacuous = append(res.Vacuous, name)
+			}
+		}
+	}()
 	defer func() {
 		res.Paths = r.paths
 		if e := recover(); e != nil {
@@ -650,5 +665,33 @@ func callSigsOf(fn *ssa.Function) map[string]*types.Signature {
 		}
 	}
 	walk(fn)
+	return out
+}
+
+var historyRE = regexp.MustCompile(`\b(?:calls|lastret|lastretb|calledwith|lastarg|argsat|mapsamesince)\("([^"]+)"`)
+
+// historyNames lists the call-history names the function's own contract mentions.
+func historyNames(sp *FuncSpec) []string {
+	seen := map[string]bool{}
+	var out []string
+	add := func(src string) {
+		for _, m := range historyRE.FindAllStringSubmatch(src, -1) {
+			if !seen[m[1]] {
+				seen[m[1]] = true
+				out = append(out, m[1])
+			}
+		}
+	}
+	for _, cs := range [][]Clause{sp.Requires, sp.Ensures, sp.CSEnsures, sp.Covers} {
+		for _, c := range cs {
+			add(c.Src)
+		}
+	}
+	for _, cs := range sp.Before {
+		for _, c := range cs {
+			add(c.Src)
+		}
+	}
+	sort.Strings(out)
 	return out
 }
